@@ -27,13 +27,19 @@ type chanInfo struct {
 	cnt, ln, cp, cls string
 }
 
-func (e *Engine) chanInfoOf(t types.Type) (*chanInfo, bool) {
+// modelledChanType: channels of integer elements are modelled; all others stay opaque.
+func modelledChanType(t types.Type) bool {
 	ch, ok := types.Unalias(t).Underlying().(*types.Chan)
-	if !ok {
+	return ok && isInteger(ch.Elem())
+}
+
+func (e *Engine) chanInfoOf(t types.Type) (*chanInfo, bool) {
+	if !modelledChanType(t) {
 		return nil, false
 	}
+	ch := types.Unalias(t).Underlying().(*types.Chan)
 	cs := e.comps(ch.Elem())
-	if len(cs) != 1 || !isInteger(ch.Elem()) {
+	if len(cs) != 1 {
 		return nil, false
 	}
 	ts := typeStr(ch.Elem())
